@@ -400,3 +400,104 @@ Proof.
   exists pinned_stream, (repeat 0%nat 40), {| kd_algo := 0; kd_server := []; kd_port := 0; kd_cookies := [] |}.
   vm_compute. intros H. discriminate H.
 Qed.
+
+(* ---------- records outside `canonical`, stated ---------- *)
+
+(* an Algorithm record with n >= 1 entries: ReadData takes the first entry and does NOT skip the
+   others: their bytes are read as the next record header *)
+Lemma read_step_algorithms a l fuel rest d : 0 <= a < 65536 -> Z.of_nat (2 + 2 * length l) < 65536 ->
+  read_data (list Z) rf_flat rf_flat (fun _ => []) (S fuel) (pack_record (RAlgorithm (a :: l)) ++ rest) d =
+  read_data (list Z) rf_flat rf_flat (fun _ => []) fuel (flat_map (be_enc 2) l ++ rest) (kd_set_algo d a).
+Proof.
+  intros Ha Hl. unfold pack_record, pack_simple. rewrite <- app_assoc.
+  hdr_step rec_aead true (length (flat_map (be_enc 2) (a :: l))).
+  cbn -[rf_flat read_data be_enc be_dec]. rewrite <- app_assoc.
+  rewrite (rf_flat_app (be_enc 2 a)) by apply be2_length. rewrite be2_dec by lia. reflexivity.
+Qed.
+
+(* a Warning record: unknown type 3 with the critical bit: error, nothing assigned, body unread *)
+Lemma read_step_warning_full x fuel rest d :
+  read_data (list Z) rf_flat rf_flat (fun _ => []) (S fuel) (pack_record (RWarning x) ++ rest) d =
+  (d, e_unknown_critical, be_enc 2 x ++ rest).
+Proof.
+  unfold pack_record, pack_simple. rewrite <- app_assoc.
+  hdr_step rec_warning true (length (be_enc 2 x)). reflexivity.
+Qed.
+
+(* the byte-level decoder meets the record-level meaning of every message the latter speaks about *)
+Lemma read_meets_spec fuel : forall rs d d' e left,
+  ke_spec rs d = Some (d', e, left) -> (length rs < fuel)%nat ->
+  exists rest', read_data (list Z) rf_flat rf_flat (fun _ => []) fuel (pack_msg rs) d = (d', e, rest') /\
+                (e = 0 -> rest' = pack_msg left).
+Proof.
+  induction fuel as [|fuel IH]; intros rs d d' e left Hs Hlen; [lia|].
+  destruct rs as [|r rs].
+  - simpl in Hs. inversion Hs; subst. exists []. split; [reflexivity|]. unfold e_eof. discriminate.
+  - unfold pack_msg. cbn [flat_map]. fold (pack_msg rs).
+    assert (Hcan : canonical r = true -> ke_spec rs (apply_record d r) = Some (d', e, left) ->
+                   exists rest', read_data (list Z) rf_flat rf_flat (fun _ => []) (S fuel) (pack_record r ++ pack_msg rs) d = (d', e, rest') /\
+                                 (e = 0 -> rest' = pack_msg left)).
+    { intros Hc Hs'. rewrite read_step_canonical by exact Hc. apply IH; [exact Hs'|simpl in Hlen; lia]. }
+    destruct r as [v| |a c|p c|ck|x|x|l|ty body]; cbn [ke_spec] in Hs.
+    + destruct (canonical (RNextProto v)) eqn:Hc; [|discriminate]. apply Hcan; auto.
+    + inversion Hs; subst. rewrite read_step_end. exists (pack_msg left). auto.
+    + destruct (canonical (RServer a c)) eqn:Hc; [|discriminate]. apply Hcan; auto.
+    + destruct (canonical (RPort p c)) eqn:Hc; [|discriminate]. apply Hcan; auto.
+    + destruct (canonical (RCookie ck)) eqn:Hc; [|discriminate]. apply Hcan; auto.
+    + destruct ((0 <=? x) && (x <? 65536)) eqn:Hx; [|discriminate]. inversion Hs; subst.
+      rewrite read_step_warning_full. eexists. split; [reflexivity|]. unfold e_unknown_critical. discriminate.
+    + destruct ((0 <=? x) && (x <? 65536)) eqn:Hx; [|discriminate]. inversion Hs; subst.
+      rewrite read_step_error by lia. eexists. split; [reflexivity|].
+      unfold error_class, e_msg_critical, e_msg_badreq, e_msg_internal, e_msg_unknown.
+      repeat match goal with |- context [if ?c then _ else _] => destruct c end; discriminate.
+    + destruct (canonical (RAlgorithm l)) eqn:Hc; [|discriminate]. apply Hcan; auto.
+    + destruct (canonical (RUnknown ty body)) eqn:Hc; [|discriminate]. apply Hcan; auto.
+Qed.
+
+Theorem read_data_meets_spec rs d d' e left :
+  ke_spec rs d = Some (d', e, left) ->
+  exists rest', read_data_flat (pack_msg rs) d = (d', e, rest') /\ (e = 0 -> rest' = pack_msg left).
+Proof.
+  intros Hs. unfold read_data_flat. apply (read_meets_spec _ rs d d' e left Hs).
+  pose proof (pack_msg_len rs). lia.
+Qed.
+
+(* what the decoder discards: two record lists that agree on info_of give the same Data *)
+Lemma apply_record_info r r' d : info_of r = info_of r' -> apply_record d r = apply_record d r'.
+Proof.
+  destruct r as [v| |a c|p c|ck|x|x|l|ty body], r' as [v'| |a' c'|p' c'|ck'|x'|x'|l'|ty' body']; simpl;
+    try reflexivity;
+    repeat match goal with
+           | |- context [match ?l with _ => _ end] => destruct l
+           end; simpl; intros H; try discriminate; try reflexivity; inversion H; reflexivity.
+Qed.
+
+Theorem records_projection rs rs' d :
+  map info_of rs = map info_of rs' -> fold_left apply_record rs d = fold_left apply_record rs' d.
+Proof.
+  revert rs' d. induction rs as [|r rs IH]; intros [|r' rs'] d H; simpl in *; try discriminate; auto.
+  inversion H as [[H1 H2]]. rewrite (apply_record_info r r' d H1). apply IH. exact H2.
+Qed.
+
+(* decode is a left inverse of spelling a Data value as records *)
+Lemma fold_cookies cs d : fold_left apply_record (map RCookie cs) d =
+  {| kd_algo := kd_algo d; kd_server := kd_server d; kd_port := kd_port d; kd_cookies := kd_cookies d ++ cs |}.
+Proof.
+  revert d. induction cs as [|c cs IH]; intros d; simpl.
+  - rewrite app_nil_r. destruct d; reflexivity.
+  - rewrite IH. unfold kd_add_cookie. simpl. rewrite <- app_assoc. reflexivity.
+Qed.
+
+Theorem data_roundtrip d d0 rest : kd_wf d -> kd_cookies d0 = [] ->
+  read_data_flat (pack_msg (data_records d ++ [REnd]) ++ rest) d0 = (d, 0, rest).
+Proof.
+  intros (Ha & Hp & Hs & Hsl & Hc) H0.
+  rewrite records_roundtrip.
+  - unfold data_records. rewrite fold_left_app, fold_cookies. simpl. rewrite H0. destruct d; reflexivity.
+  - unfold data_records. rewrite forallb_app. apply andb_true_iff. split.
+    + simpl. rewrite (proj2 (bytes_okb_ok _) Hs).
+      repeat (apply andb_true_iff; split); try reflexivity; try (apply Z.leb_le; lia); try (apply Z.ltb_lt; lia).
+    + rewrite forallb_forall. intros r Hr. apply in_map_iff in Hr as (c & <- & Hin).
+      rewrite Forall_forall in Hc. destruct (Hc c Hin) as [Hb Hl]. simpl.
+      rewrite (proj2 (bytes_okb_ok _) Hb). apply Z.ltb_lt. exact Hl.
+Qed.
